@@ -19,6 +19,7 @@ from ..units import Lin, BOOL, num
 from .common import struct_ob, formula_ob, guard, last_return, U
 from .C12 import units_obligations
 from ..report import AnalysisError
+from ..term import Resolver, pmatch, find_all, abstract, anf_of
 
 BASE = "inference/pdf/base.py"
 KDE = "inference/pdf/kde.py"
@@ -28,6 +29,76 @@ FLOORS = {"units": 3, "units-result-types": 3, "hdi-cost-form": 1, "mode-is-argm
 
 EXPECTED = {"__call__": "Lin(-1,0)", "cdf": "Lin(0,0)", "interval": "Tup(Lin(1,1), Lin(1,1))",
             "moments": "Tup(Lin(1,1), Lin(2,0), Lin(0,0), Lin(0,0))", "attr:mode": "Lin(1,1)"}
+
+
+def _sync_state(init, uc, prog):
+    """Abstract walk of the constructor: after `self.MAP = ...` the derived attributes are stale until re-assigned from MAP."""
+    rz = Resolver(init, prog, uc.module, uc)
+
+    def walk(stmts, state):
+        for st in stmts:
+            if isinstance(st, ast.If):
+                a = walk(st.body, dict(state))
+                b = walk(st.orelse, dict(state))
+                state = {k: (a[k] if a[k] == b[k] else False) for k in state}
+                continue
+            if isinstance(st, (ast.For, ast.While, ast.With, ast.Try)):
+                state = walk(st.body, state)
+                continue
+            if isinstance(st, ast.Assign):
+                for t in st.targets:
+                    tt = U(t)
+                    if tt == "self.MAP":
+                        state = {"mode": False, "norm": False}
+                    elif tt == "self.mode":
+                        state["mode"] = pmatch(rz.term(st.value, st), "self.MAP[0]") is not None
+                    elif tt == "self.map_lognorm":
+                        state["norm"] = pmatch(rz.term(st.value, st), "log(self.norm(self.MAP))") is not None
+        return state
+    return walk(init.body, {"mode": None, "norm": None})
+
+
+def _cdf_ordering(prog, uc, cf):
+    """cdf: integrate between consecutive *sorted* query points, accumulate, undo the sort with the inverse permutation."""
+    rz = Resolver(cf, prog, uc.module, uc)
+    xp = cf.args.args[1].arg
+    why = []
+    # (1) the accumulated array is indexed by argsort(argsort(x))
+    hits = []
+    for t in rz.return_terms():
+        hits += find_all(t, f"_acc.cumsum()[{xp}.argsort().argsort()]")
+    acc = {b["_acc"] for _, b in hits}
+    if not hits or len(acc) != 1:
+        why.append("the returned value is not `<intervals>.cumsum()[x.argsort().argsort()]` (inverse permutation of the sorter)")
+    accname = next(iter(acc)) if len(acc) == 1 else None
+    # (2) element i of the accumulated array is the integral of the density between sorted points i-1 and i
+    stores = [st for st in ast.walk(cf) if isinstance(st, ast.Assign) and isinstance(st.targets[0], ast.Subscript)
+              and accname is not None and U(st.targets[0].value) == accname]
+    v = f"{xp}[{xp}.argsort()]"
+    seen0 = seenk = False
+    for st in stores:
+        idx = st.targets[0].slice
+        val = rz.term(st.value, st)
+        if isinstance(idx, ast.Constant) and idx.value == 0:
+            ok0 = (pmatch(val, f"quad(self.__call__, self.lwr_limit, {v}[0])[0] if {v}[0] > self.lwr_limit else 0.0") is not None
+                   or pmatch(val, f"quad(self.__call__, self.lwr_limit, {v}[0])[0]") is not None)
+            seen0 = ok0
+            if not ok0:
+                why.append(f"first interval is `{U(val)}`")
+        elif isinstance(idx, ast.Name):
+            loop = rz.parent.get(id(st), (None, None, None))[1]
+            okl = isinstance(loop, ast.For) and U(loop.target) == idx.id and pmatch(loop.iter, f"range(1, {xp}.size)") is not None
+            okv = pmatch(val, f"quad(self.__call__, {v}[{idx.id} - 1], {v}[{idx.id}])[0]") is not None
+            seenk = okl and okv
+            if not seenk:
+                why.append(f"interval {idx.id} is `{U(val)}` in loop `{U(loop.iter) if isinstance(loop, ast.For) else None}`")
+        else:
+            why.append(f"unrecognised store `{U(st)}`")
+    if accname is not None and not (seen0 and seenk):
+        why.append("the per-interval integrals are not quad(density, v[i-1], v[i]) over the sorted points v = x[argsort(x)]")
+    return struct_ob("cdf-ordering", qual(uc, cf), not why,
+                     "the cdf must integrate between consecutive sorted query points, accumulate, and undo the sort with the inverse "
+                     "permutation of the same sorter: " + "; ".join(why), UNI, cf.lineno)
 
 
 def run(prog, tier):
@@ -63,37 +134,84 @@ def run(prog, tier):
     want = (R.sym("weight") * (R.sym("P(a)") - R.sym("P(b)"))) ** 2 + (R.sym("F(b)") - R.sym("F(a)") - R.sym("fraction")) ** 2
     o = formula_ob("hdi-cost-form", qual(de, hc), got, want, BASE, hc.lineno,
                    what="interval cost = (weight (P_a - P_b))^2 + (F_b - F_a - fraction)^2")
-    # end points handed to the estimator are c -/+ w/2, lower first
-    vdef = [s for s in hc.body if isinstance(s, ast.Assign) and U(s.targets[0]) == "v"]
-    ok_v = len(vdef) == 1 and U(vdef[0].value) == "array([c - 0.5 * w, c + 0.5 * w])"
+    # end points handed to the estimator are c -/+ w/2, lower first (normal forms of the resolved argument terms)
+    rz = Resolver(hc, prog, de.module, de)
+    th = params[0]
+    half = Fraction(1, 2)
+    ok_v, why_v = True, []
+    probes = rz.calls(lambda f: f in ("self", "self.cdf"))
+    for call, st_ in probes:
+        t_ = rz.term(call.args[0], st_) if call.args else None
+        bb = pmatch(t_, "array([_a, _b])") if t_ is not None else None
+        if bb is None:
+            bb = pmatch(t_, "array((_a, _b))") if t_ is not None else None
+        good = False
+        if bb is not None:
+            ea, _ = abstract(ast.parse(bb["_a"], mode="eval").body, [(f"{th}[0]", "C"), (f"{th}[1]", "W")])
+            eb, _ = abstract(ast.parse(bb["_b"], mode="eval").body, [(f"{th}[0]", "C"), (f"{th}[1]", "W")])
+            try:
+                good = anf_of(ea).eq(R.sym("C") - half * R.sym("W")) and anf_of(eb).eq(R.sym("C") + half * R.sym("W"))
+            except Unsupported:
+                good = False
+        if not good:
+            ok_v = False
+            why_v.append(f"`{U(call)}` is evaluated at `{U(t_) if t_ is not None else None}`")
+    ok_v = ok_v and len(probes) == 2
     it = de.methods.get("interval")
-    txt = U(it)
-    ok_i = ("lwr, upr = sample_hdi(self.sample, fraction=fraction)" in txt and "c = 0.5 * (lwr + upr)" in txt and "w = upr - lwr" in txt
-            and "weight = 0.2 / self(self.mode)" in txt and "args=(fraction, weight)" in txt and "fun=self.__hdi_cost" in txt
-            and "return (c - 0.5 * w, c + 0.5 * w)" in txt and "c, w = result.x" in txt)
+    ri = Resolver(it, prog, de.module, de)
+    ok_i, why_i = True, []
+    mins = ri.calls(lambda f: f == "minimize")
+    if len(mins) != 1:
+        ok_i = False
+        why_i.append(f"{len(mins)} minimize calls")
+    else:
+        call, st_ = mins[0]
+        fun = ri.arg(call, 0, "fun")
+        args = ri.arg(call, None, "args")
+        if fun is None or U(fun) not in ("self.__hdi_cost", "self._DensityEstimator__hdi_cost"):
+            ok_i = False
+            why_i.append(f"objective is `{U(fun) if fun is not None else None}`")
+        frac_param = it.args.args[1].arg
+        if not (isinstance(args, ast.Tuple) and len(args.elts) == 2 and isinstance(args.elts[0], ast.Name) and args.elts[0].id == frac_param):
+            ok_i = False
+            why_i.append(f"extra arguments are `{U(args) if args is not None else None}`, expected ({frac_param}, weight)")
+        rets = ri.return_terms()
+        good = False
+        if len(rets) == 1 and isinstance(rets[0], ast.Tuple) and len(rets[0].elts) == 2:
+            ab, seen = abstract(rets[0], [("minimize(*_).x[0]", "C"), ("minimize(*_).x[1]", "W")])
+            try:
+                good = (anf_of(ab.elts[0]).eq(R.sym("C") - half * R.sym("W")) and anf_of(ab.elts[1]).eq(R.sym("C") + half * R.sym("W"))
+                        and all(len(v) == 1 for v in seen.values()))
+            except Unsupported:
+                good = False
+        if not good:
+            ok_i = False
+            why_i.append(f"returned interval is `{U(rets[0]) if rets else None}`"[:300])
     if o.ok and not (ok_v and ok_i):
         o = struct_ob("hdi-cost-form", qual(de, hc), False,
-                      f"end points must be c -/+ w/2 in both the cost and the returned interval, the cost must receive (fraction, weight) "
-                      f"with weight = 0.2 / peak density: v ok {ok_v}; interval wiring ok {ok_i}", BASE, hc.lineno)
+                      f"end points must be centre -/+ width/2 of the optimiser's solution in both the cost and the returned interval, and the "
+                      f"cost must receive (fraction, weight): {'; '.join(why_v + why_i)}", BASE, hc.lineno)
     obs.append(o)
 
     # ---------------------------------------------------------------- mode
     kc = prog.cls("GaussianKDE")
     lm = kc.methods.get("locate_mode")
-    txt = U(lm)
-    ok = ("minimize_scalar(lambda x: -self(x), bounds=[lwr, upr], method='bounded')" in txt and "return result.x" in txt
-          and "lwr, upr = sample_hdi(self.sample, 0.2)" in txt and "lwr, upr = (self.sample[0], self.sample[-1])" in txt)
+    rl = Resolver(lm, prog, kc.module, kc)
+    rets = rl.return_terms()
+    bb = pmatch(rets[0], "minimize_scalar(lambda z: -self(z), bounds=[_lo, _hi], method='bounded').x") if len(rets) == 1 else None
+    if bb is None and len(rets) == 1:
+        bb = pmatch(rets[0], "minimize_scalar(lambda z: -self(z), bounds=(_lo, _hi), method='bounded').x")
+    ok = bb is not None and "self.sample" in bb["_lo"] and "self.sample" in bb["_hi"]
     obs.append(struct_ob("mode-is-argmax", qual(kc, lm), ok,
-                         "the mode must be the bounded minimiser of -density over an interval of the sample", KDE, lm.lineno))
+                         f"the mode must be the bounded minimiser of -density over an interval taken from the sample; returned term: "
+                         f"`{U(rets[0])[:300] if rets else None}`", KDE, lm.lineno, slots={"bounds": bb}))
     uc = prog.cls("UnimodalPdf")
     init = uc.methods["__init__"]
-    # every assignment of MAP is followed by mode = MAP[0]; log_pdf_model peaks at x0 (z = 0)
-    body = init.body
-    seq = [U(s) for s in ast.walk(init) if isinstance(s, ast.Assign) and U(s.targets[0]) in ("self.MAP", "self.mode")]
-    ok = len(seq) >= 2 and all(seq[i] == "self.MAP = self.min_result.x" and seq[i + 1] == "self.mode = self.MAP[0]" for i in range(0, len(seq) - 1, 2)) \
-        and len(seq) % 2 == 0
-    obs.append(struct_ob("mode-is-argmax", qual(uc, init), ok,
-                         f"the reported mode must be the location parameter of the final MAP estimate: assignments {seq}", UNI, init.lineno))
+    # on every path through the constructor, the last assignment of MAP is followed by mode = MAP[0] and by the normaliser
+    sync = _sync_state(init, uc, prog)
+    obs.append(struct_ob("mode-is-argmax", qual(uc, init), sync["mode"] is True,
+                         f"on every path through the constructor the reported mode must be element 0 of the final MAP estimate "
+                         f"(state at exit: {sync})", UNI, init.lineno))
 
     # ---------------------------------------------------------------- Gauss-Chebyshev weights (derived)
     anf.reset()
@@ -128,31 +246,26 @@ def run(prog, tier):
     obs.append(o)
     # norm = sum(w * pdf_model(u, [0, sd, *theta[2:]])) * theta[1]
     nm = uc.methods.get("norm")
-    body = [U(s) for s in nm.body]
-    ok = body == ["v = self.pdf_model(self.u, [0.0, self.sd, *theta[2:]])", "integral = (self.w * v).sum() * theta[1]", "return integral"]
+    rn = Resolver(nm, prog, uc.module, uc)
+    rets = rn.return_terms()
+    tp = nm.args.args[1].arg
+    ok = len(rets) == 1 and (pmatch(rets[0], f"(self.w * self.pdf_model(self.u, [0.0, self.sd, *{tp}[2:]])).sum() * {tp}[1]") is not None
+                             or pmatch(rets[0], f"sum(self.w * self.pdf_model(self.u, [0.0, self.sd, *{tp}[2:]])) * {tp}[1]") is not None)
     obs.append(struct_ob("normaliser-consistent", qual(uc, nm), ok,
                          f"the normaliser must integrate the standardised model (location 0, scale sd) on the quadrature grid and rescale by "
-                         f"the scale parameter: {body}", UNI, nm.lineno))
-    # map_lognorm computed from the final MAP (after its last assignment), and used by __call__
-    lines_map = [s.lineno for s in ast.walk(init) if isinstance(s, ast.Assign) and U(s.targets[0]) == "self.MAP"]
-    ln = [s for s in ast.walk(init) if isinstance(s, ast.Assign) and U(s.targets[0]) == "self.map_lognorm"]
+                         f"the scale parameter: `{U(rets[0]) if rets else None}`", UNI, nm.lineno))
+    # map_lognorm = log(norm(MAP)) holds at the end of every constructor path, and __call__ uses it
     cfn = uc.methods.get("__call__")
-    ok = (len(ln) == 1 and U(ln[0].value) == "log(self.norm(self.MAP))" and ln[0].lineno > max(lines_map)
-          and ln[0] in init.body
-          and U(last_return(cfn).value) == "exp(self.log_pdf_model(x, self.MAP) - self.map_lognorm)")
-    obs.append(struct_ob("normaliser-consistent", qual(uc, init), ok,
-                         "the density must be exp(log_pdf_model(x, MAP) - log norm(MAP)) with the normaliser computed, unconditionally, "
-                         "after the last assignment of MAP", UNI, init.lineno))
+    rc = Resolver(cfn, prog, uc.module, uc)
+    rets = rc.return_terms()
+    xp = cfn.args.args[1].arg
+    ok_call = len(rets) == 1 and pmatch(rets[0], f"exp(self.log_pdf_model({xp}, self.MAP) - self.map_lognorm)") is not None
+    obs.append(struct_ob("normaliser-consistent", qual(uc, init), sync["norm"] is True and ok_call,
+                         f"the density must be exp(log_pdf_model(x, MAP) - log norm(MAP)) with the normaliser recomputed after the last "
+                         f"assignment of MAP on every constructor path (state at exit: {sync}; density term ok: {ok_call})", UNI, init.lineno))
     # ---------------------------------------------------------------- cdf ordering
     cf = uc.methods.get("cdf")
-    txt = U(cf)
-    ok = ("sorter = x.argsort()" in txt and "inverse_sort = sorter.argsort()" in txt and "v = x[sorter]" in txt
-          and "intervals[i] = quad(self.__call__, v[i - 1], v[i])[0]" in txt and "for i in range(1, x.size)" in txt
-          and "integral = intervals.cumsum()[inverse_sort]" in txt
-          and "quad(self.__call__, self.lwr_limit, v[0])[0] if v[0] > self.lwr_limit else 0.0" in txt)
-    obs.append(struct_ob("cdf-ordering", qual(uc, cf), ok,
-                         "the cdf must integrate between consecutive sorted query points, accumulate, and undo the sort with the inverse "
-                         "permutation of the same sorter", UNI, cf.lineno))
+    obs.append(_cdf_ordering(prog, uc, cf))
 
     meta = {
         "explanation": "Units-of-measure / shift / log-domain type inference over the estimator classes with the sample typed X^1 and "
